@@ -57,3 +57,17 @@ package auth
 //@   loop 2 invariant forall j :: rangeindex < j && j < len(currentErrsIndex) ==> 0 <= currentErrsIndex[j] && currentErrsIndex[j] < len(errs)
 //@   loop 2 invariant forall j :: 0 <= j && j < len(nextErrsIndex) ==> 0 <= nextErrsIndex[j] && nextErrsIndex[j] < len(errs)
 //@   loop 2 invariant forall i :: 0 <= i && i < len(instanceNames) ==> unchanged(instanceNames[i].value)
+
+// The static authorizer implements the interface contract literally: one
+// answer per name, in a slice of its own (callers such as the 'any' combinator
+// overwrite entries of the slice they get back), PERMISSION_DENIED for the
+// names its matcher rejects.
+//@ func (*staticAuthorizer).Authorize
+//@   opt contents error
+//@   requires a.matcher != nil
+//@   ensures [one-answer-per-name] len(result) == len(instanceNames)
+//@   ensures [answers-in-a-slice-of-its-own] fresh(base(result)) || len(instanceNames) == 0
+//@   ensures [names-untouched] forall i :: 0 <= i && i < len(instanceNames) ==> unchanged(instanceNames[i].value)
+//@   loop 0 invariant -1 <= rangeindex && rangeindex < len(instanceNames) && len(errs) == rangeindex + 1
+//@         && cap(errs) >= len(instanceNames) && fresh(base(errs))
+//@   loop 0 invariant forall i :: 0 <= i && i < len(instanceNames) ==> unchanged(instanceNames[i].value)
